@@ -4,6 +4,11 @@ package simrt
 // one holds the baton. The only places the baton can move are yield points, and
 // whether it moves is decided by the world description (a list of preemption
 // points in scheduler steps), never by the Go runtime.
+//
+// Everything a task touches here is simulator-shared state. In the -race build
+// the hand-offs are hidden from the race detector, so this state would look
+// racy: every function that touches it is //go:norace and the state lives in
+// fixed-size arrays (no append, no map) – DESIGN.md §2.7.
 
 // Preempt hands the baton over at the Step-th yield of the world to the To-th
 // (mod count) other runnable task.
@@ -12,64 +17,95 @@ type Preempt struct {
 	To   int   `json:"to"`
 }
 
-// TaskCtx is the per-task part of the observation state.
-type TaskCtx struct {
-	ID     int
-	OpTag  string
-	Visits []Visit
-	InOp   bool
-}
+const maxTasks = 8
+const maxPreempts = 64
+const maxSig = 512
 
 type task struct {
-	ctx    TaskCtx
 	resume chan struct{}
 	done   bool
 	fn     func()
 	Panic  any
+	// per-task observation state, swapped in and out of Run on a switch
+	opTag  string
+	visits []Visit
+	inOp   bool
 }
 
 type Sched struct {
 	r        *Run
-	tasks    []*task
+	tasks    [maxTasks]task
+	ntasks   int
 	cur      int
 	step     int64
-	preempts []Preempt
+	preempts [maxPreempts]Preempt
+	npre     int
 	next     int
 	finished chan struct{}
+	doneSync int // address used to publish task results to the main goroutine
 
-	Switches int
-	Sig      []byte // task id at every switch: the interleaving signature
+	Switches      int
+	PreemptInside int
+	sig           [maxSig]byte
+	nsig          int
 }
 
-func (s *Sched) Step() int64 { return s.step }
+//go:norace
+func (s *Sched) Sig() string { return string(s.sig[:s.nsig]) }
 
-func (s *Sched) runnableOthers() []int {
-	var o []int
-	for i, t := range s.tasks {
-		if i != s.cur && !t.done {
-			o = append(o, i)
-		}
+//go:norace
+func (s *Sched) pushSig(b byte) {
+	if s.nsig < maxSig {
+		s.sig[s.nsig] = b
+		s.nsig++
 	}
-	return o
 }
 
+// CurTask returns the id of the task holding the baton (0 outside RunTasks).
+//
+//go:norace
+func CurTask() int {
+	r := cur
+	if r == nil || r.Sched == nil {
+		return 0
+	}
+	return r.Sched.cur
+}
+
+//go:norace
 func (s *Sched) yield(site string) {
 	s.step++
-	if s.next >= len(s.preempts) || s.step < s.preempts[s.next].Step {
+	if s.next >= s.npre || s.step < s.preempts[s.next].Step {
 		return
 	}
 	p := s.preempts[s.next]
 	s.next++
-	others := s.runnableOthers()
-	if len(others) == 0 {
+	n := 0
+	for i := 0; i < s.ntasks; i++ {
+		if i != s.cur && !s.tasks[i].done {
+			n++
+		}
+	}
+	if n == 0 {
 		return
 	}
-	to := others[((p.To%len(others))+len(others))%len(others)]
-	s.r.Stats["preempt"]++
-	if s.r.OpTagIsInsideOp() {
-		s.r.Stats["preempt_inside_op"]++
+	k := ((p.To % n) + n) % n
+	to := -1
+	for i := 0; i < s.ntasks; i++ {
+		if i != s.cur && !s.tasks[i].done {
+			if k == 0 {
+				to = i
+				break
+			}
+			k--
+		}
 	}
-	s.r.Event("switch " + itoa(s.cur) + "->" + itoa(to) + " at " + site)
+	if s.r.InOp {
+		s.PreemptInside++
+	}
+	if !s.r.Lean {
+		s.r.Event("switch " + itoa(s.cur) + "->" + itoa(to) + " at " + site)
+	}
 	s.switchTo(to)
 }
 
@@ -92,27 +128,39 @@ func itoa(i int) string {
 	return string(b)
 }
 
+//go:norace
 func (s *Sched) switchTo(to int) {
-	me := s.tasks[s.cur]
-	me.ctx.OpTag, me.ctx.Visits, me.ctx.InOp = s.r.OpTag, s.r.Visits, s.r.InOp
+	me := &s.tasks[s.cur]
+	me.opTag, me.visits, me.inOp = s.r.OpTag, s.r.Visits, s.r.InOp
 	s.cur = to
-	t := s.tasks[to]
-	s.r.OpTag, s.r.Visits, s.r.InOp = t.ctx.OpTag, t.ctx.Visits, t.ctx.InOp
+	t := &s.tasks[to]
+	s.r.OpTag, s.r.Visits, s.r.InOp = t.opTag, t.visits, t.inOp
 	s.Switches++
-	s.Sig = append(s.Sig, byte('0'+to))
+	s.pushSig(byte('0' + to))
+	if s.r.OnSwitch != nil {
+		s.r.OnSwitch(to)
+	}
 	handoff(t.resume, me.resume)
 }
 
 // exit is called by a finishing task, still holding the baton.
+//
+//go:norace
 func (s *Sched) exit() {
-	me := s.tasks[s.cur]
-	me.done = true
-	for i, t := range s.tasks {
+	s.tasks[s.cur].done = true
+	publish(&s.doneSync)
+	for i := 0; i < s.ntasks; i++ {
+		t := &s.tasks[i]
 		if !t.done {
 			s.cur = i
-			s.r.OpTag, s.r.Visits, s.r.InOp = t.ctx.OpTag, t.ctx.Visits, t.ctx.InOp
-			s.Sig = append(s.Sig, byte('0'+i))
-			s.r.Event("exit->" + itoa(i))
+			s.r.OpTag, s.r.Visits, s.r.InOp = t.opTag, t.visits, t.inOp
+			s.pushSig(byte('0' + i))
+			if !s.r.Lean {
+				s.r.Event("exit->" + itoa(i))
+			}
+			if s.r.OnSwitch != nil {
+				s.r.OnSwitch(i)
+			}
 			release(t.resume)
 			return
 		}
@@ -120,46 +168,60 @@ func (s *Sched) exit() {
 	release(s.finished)
 }
 
+//go:norace
+func (s *Sched) setPanic(i int, p any) { s.tasks[i].Panic = p }
+
 // RunTasks runs fns as concurrent tasks under the baton scheduler and returns
 // when all have finished. The returned slice holds a recovered panic per task.
 func (r *Run) RunTasks(fns []func(), preempts []Preempt) []any {
-	s := &Sched{r: r, preempts: preempts, finished: make(chan struct{})}
-	for i, fn := range fns {
-		s.tasks = append(s.tasks, &task{ctx: TaskCtx{ID: i}, resume: make(chan struct{}), fn: fn})
-	}
 	if len(fns) == 0 {
 		return nil
 	}
+	if len(fns) > maxTasks {
+		fns = fns[:maxTasks]
+	}
+	s := &Sched{r: r, finished: make(chan struct{})}
+	for i, p := range preempts {
+		if i < maxPreempts {
+			s.preempts[i] = p
+			s.npre++
+		}
+	}
+	s.ntasks = len(fns)
+	for i, fn := range fns {
+		s.tasks[i].resume = make(chan struct{})
+		s.tasks[i].fn = fn
+	}
 	r.Sched = s
-	for _, t := range s.tasks {
-		t := t
+	r.OpTag, r.Visits, r.InOp = "", nil, false
+	if r.OnSwitch != nil {
+		r.OnSwitch(0)
+	}
+	for i := 0; i < s.ntasks; i++ {
+		i := i
 		go func() {
-			acquire(t.resume)
+			acquire(s.tasks[i].resume)
 			func() {
 				defer func() {
 					if p := recover(); p != nil {
-						t.Panic = p
+						s.setPanic(i, p)
 					}
 				}()
-				t.fn()
+				s.tasks[i].fn()
 			}()
 			s.exit()
 		}()
 	}
-	s.cur = 0
-	r.OpTag, r.Visits, r.InOp = "", nil, false
 	release(s.tasks[0].resume)
 	acquire(s.finished)
+	subscribe(&s.doneSync)
 	r.Sched = nil
-	out := make([]any, len(s.tasks))
-	for i, t := range s.tasks {
-		out[i] = t.Panic
+	out := make([]any, s.ntasks)
+	for i := 0; i < s.ntasks; i++ {
+		out[i] = s.tasks[i].Panic
 	}
+	r.Stats["preempt"] += int64(s.Switches)
+	r.Stats["preempt_inside_op"] += int64(s.PreemptInside)
 	r.LastSched = s
 	return out
 }
-
-// OpTagIsInsideOp reports whether the running task is in the middle of a
-// library call (the harness tags operations "<task>:<op>" and clears the tag's
-// suffix between operations by setting InOp).
-func (r *Run) OpTagIsInsideOp() bool { return r.InOp }
